@@ -14,9 +14,9 @@ from lib import tlc, build, tracev
 from lib.ctx import MachineryError
 from harness.mt import mtlib
 
-QUICK_MC = ["err1", "badhdr2", "direct", "direrr", "trunc2", "memtight"]
+QUICK_MC = ["err1", "badhdr2", "direct", "direrr", "trunc2", "memtight", "live", "live_trunc"]
 ALL_MC = ["ok", "err2", "err1", "badhdr", "badhdr2", "direct", "direrr", "empty", "trunc", "trunc2", "badtail",
-          "spur", "timeout", "ff_err", "ff_trunc", "memtight"]
+          "spur", "timeout", "ff_err", "ff_trunc", "memtight", "live", "live_trunc"]
 
 def model_check(ctx):
     names = QUICK_MC if ctx.quick else ALL_MC
